@@ -99,7 +99,7 @@ pub fn families(property: &str) -> Vec<Family> {
             Family { seed_mode: SeedMode::Index, ..fam("c02_pair_drop", c02_pair_drop, 0, 1128 * 150) },
             Family { fault_free: true, ..fam("c02_prompt", g::c02_prompt, 25_000, 500_000) },
         ],
-        "C03" => vec![fam("c03_termination", g::c03, 25_000, 600_000)],
+        "C03" => vec![fam("c03_termination", g::c03, 25_000, 600_000), fam("c03_close_races", g::c03_close_races, 15_000, 400_000)],
         "C04" => vec![Family { fault_free: true, ..fam("peer_sender_exact", ps_exact, 20_000, 500_000) }, Family { fault_free: true, ..fam("peer_sender_hostile", ps_hostile, 20_000, 500_000) }],
         "C05" => vec![
             Family { fault_free: true, ..fam("peer_receiver", pr_generic, 25_000, 600_000) },
